@@ -162,10 +162,17 @@ template <class X> struct ParseMon {
 
         const size_t n = w.size();
         // guarded copies: one without terminator (explicit range), one with (NUL-terminated entry points)
-        for (int ep = 0; ep < 7; ep++) {
+        for (int ep = 0; ep < 8; ep++) {
             bool nulTerm = (ep == 1 || ep == 2 || ep == 5);
             if (nulTerm && hasNul) continue;
             typename X::S buf = w; if (nulTerm) buf.push_back((Char)0);
+            if (ep == 7) {
+                // the same range inside a longer buffer: what follows it is readable and hostile (continues a triplet, a port, an octet,
+                // closes a bracket ...). The verdict must be the automaton's verdict on the range alone, to the character.
+                static const char* const TAILS[] = {"%", "%41", "%4", "5", "55", "]", ":", ".", "/", "a", "@", "[", "::1]", "25", "?", "#", "0.0.1", ":80", "f", "v"};
+                const char* tl = TAILS[(c.case_index / 3 + (uint64_t)s.size()) % (sizeof TAILS / sizeof TAILS[0])];
+                for (const char* q = tl; *q; q++) buf.push_back(X::wid((unsigned char)*q));
+            }
             gin.set(buf.data(), buf.size() * sizeof(Char), (int)(c.case_index & 1) && !nulTerm ? 1 : 0);
             const Char* first = (const Char*)gin.ptr; const Char* afterLast = first + n;
             Uri u; memset(&u, 0xCD, sizeof u);
@@ -184,7 +191,8 @@ template <class X> struct ParseMon {
                 case 3: name = "ParseSingleUriEx"; rc = X::ParseSingleUriEx(&u, first, afterLast, &errPos); break;
                 case 4: name = "ParseSingleUriExMm"; mm = ledger.mgr(); rc = X::ParseSingleUriExMm(&u, first, afterLast, &errPos, mm); break;
                 case 5: name = "ParseSingleUriEx(afterLast=NULL)"; rc = X::ParseSingleUriEx(&u, first, nullptr, &errPos); break;
-                default: name = "ParseSingleUriEx(errorPos=NULL)"; rc = X::ParseSingleUriEx(&u, first, afterLast, nullptr); haveErr = false; break;
+                case 6: name = "ParseSingleUriEx(errorPos=NULL)"; rc = X::ParseSingleUriEx(&u, first, afterLast, nullptr); haveErr = false; break;
+                default: name = "ParseSingleUriEx(range-inside-longer-buffer)"; rc = X::ParseSingleUriEx(&u, first, afterLast, &errPos); break;
                 }
             }
             c.evaluations++;
